@@ -771,6 +771,18 @@ fn relations(rep: &mut Report, rng: &mut Rng, store: &AnnotationStore, model: &M
     }
 }
 
+/// the result-type x constraint cells whose primary and secondary evaluation have different universes (recorded findings)
+const KNOWN_CELLS: [(&str, &str); 11] = [
+    ("ANNOTATION", "RESOURCE"), ("ANNOTATION", "RESOURCE-META"), ("ANNOTATION", "TEXT"), ("ANNOTATION", "TEXT-NOCASE"),
+    ("TEXT", "TEXT"), ("TEXT", "TEXT-NOCASE"), ("TEXT", "RESOURCE"), ("TEXT", "RESOURCE-META"),
+    ("RESOURCE", "DATAKEY"), ("RESOURCE", "DATAKEY-META"), ("RESOURCE", "KEYVALUE-META"),
+];
+
+/// a variable stands for the item it is bound to
+fn base_kind(kind: &str) -> String {
+    kind.replace("RESOURCEVAR", "RESOURCE").replace("ANNOTATIONVAR", "ANNOTATION").replace("DATASETVAR", "DATASET").replace("KEYVAR", "DATAKEY")
+}
+
 fn kinds_of(cs: &[CS]) -> String {
     let mut k: Vec<String> = cs.iter().map(|c| c.kind()).collect();
     k.sort();
@@ -864,7 +876,13 @@ fn subqueries(rep: &mut Report, rng: &mut Rng, store: &AnnotationStore, sd: &Val
     outer.name = Some("x".into());
     let mut inner = QS::new(inner_rt, vec![link.clone()]);
     if rng.chance(1, 2) {
-        inner.cs.push(gen_cs(rng, &p, false));
+        // the constraint that refers to the outer variable comes first (index-driven) or second (filter)
+        let other = gen_cs(rng, &p, false);
+        if rng.chance(1, 2) {
+            inner.cs.push(other);
+        } else {
+            inner.cs.insert(0, other);
+        }
     }
     inner.name = Some("y".into());
     inner.optional = rng.chance(1, 3);
@@ -905,6 +923,81 @@ fn subqueries(rep: &mut Report, rng: &mut Rng, store: &AnnotationStore, sd: &Val
         };
         let o = run(store, q);
         rep.eval();
+        // the bound inner query must not depend on the order of its constraints either
+        if standalone.cs.len() == 2 {
+            let mut swapped = standalone.clone();
+            swapped.cs.swap(0, 1);
+            let q2 = swapped.build();
+            let q2 = match item {
+                QueryResultItem::Annotation(a) => q2.with_annotationvar("x", a),
+                QueryResultItem::TextSelection(t) => q2.with_textvar("x", t),
+                QueryResultItem::TextResource(r) => q2.with_resourcevar("x", r),
+                QueryResultItem::AnnotationDataSet(s) => q2.with_datasetvar("x", s),
+                QueryResultItem::AnnotationData(d) => q2.with_datavar("x", d),
+                QueryResultItem::DataKey(k) => q2.with_keyvar("x", k),
+                _ => return,
+            };
+            let o2 = run(store, q2);
+            rep.eval();
+            if let (Some(a), Some(b)) = (o.set(), o2.set()) {
+                rep.distinct(&format!("bound-order/{}/{}", rtname(inner_rt), kinds_of(&standalone.cs)));
+                if a != b {
+                    // a constraint that disagrees between primary and secondary position on its own is judged under that
+                    // cell (a variable stands for the item it is bound to: RESOURCE ?x is the RESOURCE cell)
+                    let bind = |q: Query<'_>| -> Option<Out> {
+                        // (re-binding needs the item; done by the caller-side match below)
+                        let _ = q;
+                        None
+                    };
+                    let _ = bind;
+                    // a constraint of a recorded cell explains the difference (its universe depends on its position)
+                    let mut cell: Option<String> = standalone.cs.iter().map(|c| base_kind(&c.kind())).find(|k| KNOWN_CELLS.contains(&(rtname(inner_rt), k.as_str())));
+                    for c in standalone.cs.iter() {
+                        if cell.is_some() {
+                            break;
+                        }
+                        let differs = if *c == link {
+                            let one = QS::new(inner_rt, vec![c.clone()]);
+                            let two = QS::new(inner_rt, vec![CS::Limit(0, 0), c.clone()]);
+                            let (qa, qb) = (one.build(), two.build());
+                            let (qa, qb) = match item {
+                                QueryResultItem::Annotation(a) => (qa.with_annotationvar("x", a), qb.with_annotationvar("x", a)),
+                                QueryResultItem::TextSelection(t) => (qa.with_textvar("x", t), qb.with_textvar("x", t)),
+                                QueryResultItem::TextResource(r) => (qa.with_resourcevar("x", r), qb.with_resourcevar("x", r)),
+                                QueryResultItem::AnnotationDataSet(s) => (qa.with_datasetvar("x", s), qb.with_datasetvar("x", s)),
+                                QueryResultItem::AnnotationData(d) => (qa.with_datavar("x", d), qb.with_datavar("x", d)),
+                                QueryResultItem::DataKey(k) => (qa.with_keyvar("x", k), qb.with_keyvar("x", k)),
+                                _ => return,
+                            };
+                            matches!((run(store, qa).set(), run(store, qb).set()), (Some(x), Some(y)) if x != y)
+                        } else {
+                            let pa = eval(store, &QS::new(inner_rt, vec![c.clone()]));
+                            let pb = eval(store, &QS::new(inner_rt, vec![CS::Limit(0, 0), c.clone()]));
+                            matches!((pa.set(), pb.set()), (Some(x), Some(y)) if x != y)
+                        };
+                        if differs {
+                            cell = Some(base_kind(&c.kind()));
+                            break;
+                        }
+                    }
+                    match cell {
+                        Some(k) => {
+                            rep.violation(
+                                format!("C08/primary-vs-secondary/{}/{}", rtname(inner_rt), k),
+                                ctx(sd, &standalone, json!({"bound_to": orow, "rows": a, "rows_with_constraints_swapped": b, "seen_through": "bound sub-query, constraints in both orders"})),
+                            );
+                        }
+                        None => {
+                            rep.violation(
+                                format!("C08/order/bound-variable/{}/{}", rtname(inner_rt), link.kind()),
+                                ctx(sd, &standalone, json!({"bound_to": orow, "rows": a, "rows_with_constraints_swapped": b})),
+                            );
+                        }
+                    }
+                    return;
+                }
+            }
+        }
         match o {
             Out::Rows(rows) => {
                 if rows.is_empty() && inner.optional {
